@@ -130,6 +130,7 @@ var rwOracles = []string{"mustNoYield", "containsYield", "isTerminating", "isYie
 
 type rwConfig struct {
 	noOracles  bool
+	astWalk    bool // follow go/ast.Inspect / Walk
 	root       *ssa.Function
 	boundaries map[string]bool
 	// symbolic *block receivers: methods answered as oracles
@@ -182,7 +183,9 @@ func (r *rwRT) interp(cfg rwConfig) *Interp {
 	}
 	in.Inline = func(fn *ssa.Function) bool {
 		if !inRw(fn) {
-			return false
+			// the syntax-tree traversal of go/ast (Inspect / Walk) is followed when the rule asks for it: on the
+			// concrete abstract trees of the termination shapes its real code visits exactly the nodes it would
+			return cfg.astWalk && isAstWalkFn(fn)
 		}
 		if cfg.inlineAll {
 			return true
@@ -628,4 +631,28 @@ func (r *rwRT) newYieldAst(st *State, seqName string, retTy AV) AV {
 		}
 	}
 	return st.alloc(&Obj{Kind: 's', Fields: map[string]AV{"seqImportedName": mkString(seqName), "funRetParamTy": retTy}})
+}
+
+// isAstWalkFn: the traversal functions of go/ast (and their helpers).
+func isAstWalkFn(fn *ssa.Function) bool {
+	fn = bodyOf(fn)
+	if fn == nil {
+		return false
+	}
+	pkg := ""
+	if fn.Pkg != nil {
+		pkg = fn.Pkg.Pkg.Path()
+	} else if o := fn.Object(); o != nil && o.Pkg() != nil {
+		pkg = o.Pkg().Path()
+	} else if p := fn.Parent(); p != nil {
+		return isAstWalkFn(p)
+	}
+	if pkg != "go/ast" {
+		return false
+	}
+	name := fn.Name()
+	if name == "Inspect" || name == "Walk" || name == "Visit" || strings.HasPrefix(name, "walk") {
+		return len(fn.Blocks) > 0 || (fn.Origin() != nil && len(fn.Origin().Blocks) > 0)
+	}
+	return false
 }
